@@ -11,7 +11,7 @@ FILES = {
   "C06": ["sandbox/grist/engine.py"],
   "C07": ["sandbox/grist/engine.py", "sandbox/grist/main.py", "sandbox/grist/objtypes.py", "sandbox/grist/column.py"],
 }
-NPERM = 24
+NPERM = 24 if os.environ.get('VERIF_TIER') == 'thorough' else 6
 
 
 def kth_permutation(items, k):
